@@ -14,10 +14,10 @@ build_engine() {
   ( cd engine && CARGO_TARGET_DIR=../.build/engine-target cargo build --offline >../.build/logs/engine.log 2>&1 ) || { echo "BUILD-FAILED engine (see .build/logs/engine.log)"; tail -30 .build/logs/engine.log; return 2; }
 }
 build_cli() {
-  ( cd /repo && cargo build --offline -p rsjsonnet --target-dir /verif/.build/cli-target >/verif/.build/logs/cli.log 2>&1 ) || { echo "BUILD-FAILED cli (see .build/logs/cli.log)"; tail -30 .build/logs/cli.log; return 2; }
+  ( root="$PWD"; cd /repo && cargo build --offline -p rsjsonnet --target-dir "$root/.build/cli-target" >"$root/.build/logs/cli.log" 2>&1 ) || { echo "BUILD-FAILED cli (see .build/logs/cli.log)"; tail -30 .build/logs/cli.log; return 2; }
 }
 build_fuzz() {
-  ( cd fuzz && CARGO_NET_OFFLINE=true CARGO_TARGET_DIR=/verif/.build/fuzz-target cargo +nightly fuzz build --fuzz-dir . >../.build/logs/fuzz.log 2>&1 ) || { echo "BUILD-FAILED fuzz (see .build/logs/fuzz.log)"; tail -30 .build/logs/fuzz.log; return 2; }
+  ( cd fuzz && CARGO_NET_OFFLINE=true CARGO_TARGET_DIR="$PWD/../.build/fuzz-target" cargo +nightly fuzz build --fuzz-dir . >../.build/logs/fuzz.log 2>&1 ) || { echo "BUILD-FAILED fuzz (see .build/logs/fuzz.log)"; tail -30 .build/logs/fuzz.log; return 2; }
 }
 case "$what" in
   engine) build_engine || rc=2 ;;
